@@ -47,7 +47,7 @@ def st_rstart(draw):
 
 @st.composite
 def st_rop(draw, extra=()):
-    o = draw(st.sampled_from(['append', 'append', 'iterappend', 'trunc', 'trunc', 'mode', 'reopen', 'read', 'ctx', 'failappend', 'sibling'] + list(extra)))
+    o = draw(st.sampled_from(['append', 'append', 'iterappend', 'trunc', 'trunc', 'mode', 'reopen', 'read', 'ctx', 'failappend', 'sibling', 'recreate', 'iterappend2d'] + list(extra)))
     if o == 'append':
         return {'o': 'append', 'item': draw(st_item())}
     if o == 'iterappend':
@@ -77,6 +77,10 @@ def st_rop(draw, extra=()):
     if o == 'failappend':
         return {'o': 'failappend', 'items': [draw(st_item()) for _ in range(draw(st.integers(0, 3)))],
                 'kind': draw(st.sampled_from(['raise', 'badatom', 'unconv'])), 'gen': draw(st.booleans())}
+    if o == 'recreate':
+        return {'o': 'recreate', 'how': draw(st.sampled_from(['delete_raggedarray', 'rmtree']))}
+    if o == 'iterappend2d':
+        return {'o': 'iterappend2d', 'k': draw(st.integers(1, 4)), 'n': draw(st.integers(1, 3)), 'seed': draw(st.integers(0, 2 ** 31))}
     if o == 'sibling':
         return {'o': 'sibling', 'dt': draw(gens.st_dt()), 'atom': [draw(st.integers(1, 3)) for _ in range(draw(st.integers(0, 2)))],
                 'indextype': draw(st.sampled_from(INDEXTYPES)), 'items': [draw(st_item()) for _ in range(draw(st.integers(1, 3)))],
@@ -454,6 +458,41 @@ class RaggedRun:
             self.m = m + mis
             self.nmut += 1
             return self.observe(tag)
+        if o == 'iterappend2d':
+            # the iterable is ONE numeric ndarray whose rows (first axis) are the subarrays: k subarrays of n values each
+            if self.mode == 'r':
+                return True
+            block = gens.build_array(self.dt, (op['k'], op['n']) + tuple(self.atom), {'m': 'raw', 's': op['seed']})
+            if not self.fits(op['k'] * op['n']):
+                return True
+            self.kinds.append('iterappend')
+            self.out.cls('iterappend:ndarray-as-iterable')
+            tag = f"iterappend2d:{'empty' if not m else 'nonempty'}"
+            if not self.expect_ok(tag, lambda: ra.iterappend(block)):
+                return False
+            self.m = m + [model_item(block[i], self.dt) for i in range(op['k'])]
+            self.nmut += 1
+            return self.observe(tag)
+        if o == 'recreate':
+            # the ragged array is deleted and the same one (same start state) is created again at the same path in the same process
+            if getattr(self, 'in_ctx', False) or self.path != os.path.join(self.d, 'ra.darr'):
+                return True
+            self.kinds.append('recreate')
+            self.out.cls('deleted-and-created-again-at-the-same-path')
+            try:
+                if op['how'] == 'delete_raggedarray':
+                    self.ra.accessmode = 'r+'
+                    darr.delete_raggedarray(self.ra)
+                else:
+                    import shutil
+                    self.ra = None
+                    shutil.rmtree(self.path)
+                self.create(self.spec['start'])
+            except Exception as e:
+                self.out.viol('valid-call-raised', f'recreate:{type(e).__name__}', f'step {self.stepno}: {type(e).__name__}: {e}')
+                return False
+            self.nmut = 0
+            return self.observe('recreate')
         if o == 'sibling':
             # another ragged array (other dtype, atom, index type) comes to life in the same process and stays alive
             self.out.cls('sibling-object-alive')
